@@ -849,6 +849,13 @@ class C12(Prop):
                 qs += [["prefixsteps", p], ["natab", ["prefix", p], H], ["natab", ab, H]]
                 meta.append(("pconv", base, ab, hz, H))
             ctx.dist("conversion", how)
+        # sums of identical periodic streams: delta-min vectors with plateaus of three or more equal entries (at the end, too)
+        for _ in range(ctx.scale(12, 150)):
+            T = rng.randint(3, 25); m = rng.randint(3, 5); ab = ["sum", [["periodic", T]] * m]
+            conv = ["from_ab", ab, rng.randint(2, 3 * m)] if rng.random() < 0.6 else ["from_ab_until", ab, rng.randint(0, 3 * T)]
+            base = len(qs); H = rng.randint(2 * T, 8 * T)
+            qs += [["curvevec", conv], ["natab", ["curve", conv], H], ["natab", ab, H]]
+            meta.append(("conv", base, ab, conv[0], H))
         # witnesses of the repaired defect (fixed: 5ca7197): sources with three or more simultaneous arrivals
         for ab, conv, H in ((["sporadic", 19, 40], ["from_ab_until", ["sporadic", 19, 40], 10], 80), (["sporadic", 3, 7], ["from_ab", ["sporadic", 3, 7], 3], 40),
                             (["sporadic", 5, 10], ["from_ab", ["sporadic", 5, 10], 2], 40), (["sporadic", 3, 7], ["from_ab_until", ["sporadic", 3, 7], 0], 40)):
@@ -930,6 +937,16 @@ class C13(Prop):
             qs += [["curvevec", ext], ["natab", ["curve", ext], H], ["natab", ["curve", c0], H], ["natab", ["extrap", c0], H],
                    ["natab", ["curve", ["extrapolate", c0, H + 1]], H], ["steps", ["extrap", c0], H, 100000]]
             meta.append(("ext", base, d, H))
+        # extrapolate_with_bound: prefixes of one to five entries (one entry: nothing to extrapolate from, the bound itself is stored),
+        # the expected job count len + 2 (and, rarely, another one: then the call must change nothing)
+        for _ in range(ctx.scale(60, 700)):
+            d = gen.gen_dmin(rng, True, True, maxlen=5) if rng.random() < 0.6 else [rng.randint(1, 12)]
+            n = len(d) + 2 if rng.random() < 0.85 else len(d) + rng.choice([1, 3])
+            D = d[-1] + 1 + rng.randint(0, 12)
+            ext = ["extrapolate_with_bound", ["dmin", d], D, n]
+            H = rng.randint(10, 90); base = len(qs)
+            qs += [["curvevec", ext], ["natab", ["curve", ext], H]]
+            meta.append(("ewb", base, d, D, n, H))
         for _ in range(ctx.scale(120, 1500)):
             q = families.q_hist(rng)[0]
             c = q[1]
@@ -949,6 +966,22 @@ class C13(Prop):
         rows = ctx.run(qs)
         ctx.correspond(rows)
         for m in meta:
+            if m[0] == "ewb":
+                _, base, d, D, n, H = m
+                vec, tab = rows[base][1], rows[base + 1][1]
+                if not vec or not tab or vec[0] != "l" or tab[0] != "l": continue
+                v = list(vec[1])
+                if n != len(d) + 2:
+                    ctx.oracle("with_bound_wrong_count_is_noop", v == d, "extrapolate_with_bound(%s, (%d, %d)) changed the vector to %s although the bound is for another job count" % (d, D, n, v), [rows[base][0]], cls="oracle:ewb_noop")
+                    continue
+                ctx.oracle("with_bound_keeps_prefix", v[:len(d)] == d and len(v) == len(d) + 1 and v[-1] >= D - 1, "extrapolate_with_bound(%s, (%d, %d)) gives %s" % (d, D, n, v), [rows[base][0]], cls="oracle:ewb_prefix")
+                # a sequence that respects the prefix and the bound (n jobs need more than D - 1) must still be covered
+                es = events_for(["curve", ["dmin", d + [max(D - 1, d[-1])]]], rng, 3 * H + 10, True)
+                cnt = max_window_counts(es, H)
+                bad = [x for x in range(H + 1) if cnt[x] > tab[1][x]]
+                ctx.oracle("with_bound_still_bounds_sequences", not bad, "a sequence respecting %s and the bound (%d jobs need > %d) has %s events in a window of %s but the extended curve %s allows %s" %
+                           (d, n, D - 1, [cnt[x] for x in bad[:1]], bad[:1], v, [tab[1][x] for x in bad[:1]]), [rows[base][0], rows[base + 1][0]], cls="oracle:ewb_undercount")
+                continue
             if m[0] == "ext":
                 _, base, d, H = m
                 v = [rows[base + i][1] for i in range(6)]
@@ -1436,8 +1469,18 @@ class C02(_SchedProp):
             ts = families.gen_dense_system(rng)
             dl = lambda rb: rng.choice([rng.randint(rb[2][1], max(rb[2][1], rb[1][1])), rng.randint(rb[2][1], 2 * rb[1][1] + 2)])
             S = dict(tua=ts[0], others=ts[1:], D=dl(ts[0]), od=[dl(o) for o in ts[1:]])
-            return edf_variant_setup(v, S, rng)
-        return edf_variant_setup(v, gen_edf_system(rng, ["periodic", "sporadic", "curve", "extrap", "propagated", "jitter"]), rng)
+        else:
+            S = gen_edf_system(rng, ["periodic", "sporadic", "curve", "extrap", "propagated", "jitter"])
+        if rng.random() < 0.12:
+            # a task that never releases a job, listed BEFORE a heavy task with a long relative deadline (a pure blocker for the
+            # short-deadline task under analysis): bookkeeping that pairs tasks with per-task data by position must survive filtering
+            C = S["tua"][2][1]
+            S["D"] = rng.randint(C, C + 8)
+            blk = ["rbf", ["sporadic", rng.randint(60, 200), 0], ["scalar", rng.randint(4, 12)]]
+            nev = ["rbf", ["never"], ["scalar", rng.randint(1, 9)]]
+            S["others"] = [nev, blk] + S["others"][:1]
+            S["od"] = [rng.randint(1, S["D"]), S["D"] + rng.randint(10, 60)] + S["od"][:1]
+        return edf_variant_setup(v, S, rng)
     def judge(self, ctx, v, q, R, w, wit):
         ctx.oracle("no_schedule_exceeds_the_bound", w <= R, "%s returns Ok(%d) but a legal EDF schedule has a job of the analysed task with response time %d" % (v, R, w),
                    [q], cls="oracle:unsafe:" + v, extra=dict(witness=wit))
@@ -2010,10 +2053,11 @@ class C04(Prop):
         for k in range(ctx.scale(1600, 8000)):
             T = rng.randint(60, 120); c1 = rng.randint(4, 9); c2 = rng.randint(1, 2); gap = rng.randint(c1 + 2, 3 * c1 + 10)
             own = dict(kind="timer", prio=9, cost=c1, frames=[c1, c2], ab=["sporadic", T, T - gap])
+            if k % 2: own["ccurve"] = [c1, c1 + c2, 2 * c1 + c2]        # the same costs as a wcet::Curve (jobs c1, c2, c1, ...)
             cbs = [dict(kind="timer", prio=i, cost=rng.randint(1, 3), ab=["periodic", rng.randint(7, 16)]) for i in range(rng.randint(1, 3))] + [own]
             if rng.random() < 0.3: cbs.append(dict(kind="polled", prio=0, cost=rng.randint(1, 3), ab=["periodic", rng.randint(40, 90)]))
             sb = rng.choice([["dedicated"], ["periodic_s", 3, 5], ["periodic_s", rng.randint(3, 5), rng.randint(5, 7)], ["constrained_s", 3, 4, 6]])
-            rbf = lambda c: ["rbf", c["ab"], (["multiframe", c["frames"]] if c.get("frames") else ["scalar", c["cost"]])]
+            rbf = lambda c: ["rbf", c["ab"], (["ccurve", ["costs", c["ccurve"]]] if c.get("ccurve") else ["multiframe", c["frames"]] if c.get("frames") else ["scalar", c["cost"]])]
             ti = cbs.index(own)
             B = max([c["cost"] for c in cbs[ti + 1:]], default=0)
             if k % 10: nosim.add(len(cases))
